@@ -34,6 +34,8 @@ type vctx struct {
 	parent   Context
 	done     chan struct{}
 	err      error
+	dlCause  error // cause to report when the deadline fires (WithTimeoutCause)
+	cause    error // what Cause reports once closed (err itself unless a cause was given)
 	closed   bool
 	deadline int64 // virtual ns; 0 = none
 	hasDL    bool
@@ -72,12 +74,19 @@ func (c *vctx) Value(key any) any {
 
 // cancelLocked performs the cancellation; task==true when called from a task (visible op
 // already taken), false when called from a timer action.
-func (c *vctx) cancel(err error, tm *vrt.Timer) {
+func (c *vctx) cancel(err error, tm *vrt.Timer) { c.cancelC(err, nil, tm) }
+
+// cancelC cancels with an explicit cause (nil: the error itself).
+func (c *vctx) cancelC(err, cause error, tm *vrt.Timer) {
 	if c.closed {
 		return
 	}
+	if cause == nil {
+		cause = err
+	}
 	c.closed = true
 	c.err = err
+	c.cause = cause
 	if tm != nil {
 		vrt.TimerClose(tm, c.done)
 		vrt.TimerTouch(tm, unsafe.Pointer(&c.closed))
@@ -88,7 +97,7 @@ func (c *vctx) cancel(err error, tm *vrt.Timer) {
 		c.timer.Stop()
 	}
 	for _, ch := range c.children {
-		ch.cancel(err, tm)
+		ch.cancelC(err, cause, tm)
 	}
 	c.children = nil
 	if c.vparent != nil {
@@ -115,6 +124,14 @@ func newCtx(parent Context) *vctx {
 		if p.closed {
 			c.closed = true
 			c.err = p.err
+			if _, wrapped := parent.(*vctx); !wrapped {
+				// as in the standard library: a parent that is already done hands down what its own
+				// Err method says (a wrapper type may override it)
+				if e := parent.Err(); e != nil {
+					c.err = e
+				}
+			}
+			c.cause = p.cause
 			vrt.CloseNoYield(c.done)
 			return c
 		}
@@ -164,7 +181,7 @@ func WithTimeout(parent Context, timeout time.Duration) (Context, CancelFunc) {
 			vrt.Yield("ctx deadline already passed")
 			c.cancel(DeadlineExceeded, nil)
 		} else {
-			c.timer = vrt.NewTimer(int64(timeout), 0, func(tm *vrt.Timer) { c.cancel(DeadlineExceeded, tm) })
+			c.timer = vrt.NewTimer(int64(timeout), 0, func(tm *vrt.Timer) { c.cancelC(DeadlineExceeded, c.dlCause, tm) })
 		}
 	}
 	return c, func() {
@@ -189,9 +206,20 @@ func WithValue(parent Context, key, val any) Context {
 	return &valueCtx{parent, key, val}
 }
 
+// Cause reports why c was cancelled.  As in the standard library it asks the innermost
+// cancellable context (found through Value), so an Err method overridden by a wrapper type is
+// bypassed.
 func Cause(c Context) error {
-	if cc, ok := c.Value(causeKey{}).(*causeCtx); ok && cc != nil && *cc.cause != nil {
-		return *cc.cause
+	if p, ok := c.Value(&cancelKey).(*vctx); ok && p != nil {
+		var e error
+		vrt.Atomic(unsafe.Pointer(&p.closed), false, func() uint64 {
+			e = p.cause
+			if e != nil {
+				return 1
+			}
+			return 0
+		})
+		return e
 	}
-	return c.Err()
+	return stdctx.Cause(c)
 }
